@@ -222,6 +222,109 @@ func runC05(c *Checker) {
 	c.floor("TAINT-WIRE", 4)
 	c.floor("FRAME", 5)
 	_ = nW
+
+	// the byte stream handed to gRPC: count/remainder discipline of the Read/Write methods (as C15)
+	rg := newRanger(w)
+	for _, fn := range ioMethods(w, targetMbox, "Read") {
+		checkReadMethod(c, rg, fn)
+	}
+	for _, fn := range ioMethods(w, targetMbox, "Write") {
+		checkWriteMethod(c, rg, fn)
+	}
+	c.floor("RDC-1", 6)
+	c.floor("RDC-2", 5)
+	// the retry loops of the transport callbacks must not wedge on their own mutexes
+	ruleLOCKBAL(c, targetMbox)
+}
+
+// ruleLOCKBAL: in package pkg no mutex is acquired while it may already be held by the same
+// goroutine (e.g. a retry loop that forgets to unlock before `continue`), and no function returns
+// with a mutex it locked still held unless the unlock was deferred.
+func ruleLOCKBAL(c *Checker, pkg string) {
+	w := c.w
+	var funcs []*ssa.Function
+	for _, f := range w.Funcs {
+		if w.pkgShort(f) == pkg {
+			funcs = append(funcs, f)
+		}
+	}
+	n := 0
+	for _, fn := range funcs {
+		// intra-procedural may-held analysis with deferred unlocks tracked
+		in := map[*ssa.BasicBlock]map[*types.Var]bool{}
+		if len(fn.Blocks) == 0 {
+			continue
+		}
+		deferred := map[*types.Var]bool{}
+		allInstrs(fn, func(i ssa.Instruction) {
+			if d, ok := i.(*ssa.Defer); ok {
+				if f, acq, _, ok := lockOp(d.Common()); ok && !acq {
+					deferred[f] = true
+				}
+			}
+		})
+		in[fn.Blocks[0]] = map[*types.Var]bool{}
+		work := []*ssa.BasicBlock{fn.Blocks[0]}
+		reported := map[ssa.Instruction]bool{}
+		visits := map[*ssa.BasicBlock]int{}
+		for len(work) > 0 {
+			b := work[0]
+			work = work[1:]
+			visits[b]++
+			if visits[b] > 20 {
+				continue
+			}
+			cur := map[*types.Var]bool{}
+			for k := range in[b] {
+				cur[k] = true
+			}
+			for _, ins := range b.Instrs {
+				switch x := ins.(type) {
+				case *ssa.Call:
+					if f, acq, _, ok := lockOp(x.Common()); ok {
+						n++
+						if acq {
+							if cur[f] && !reported[ins] {
+								reported[ins] = true
+								c.fail("LOCKBAL", fmt.Sprintf("%s|re-locks %s", fnName(fn), w.fieldKey(f)), instrPos(ins),
+									"a mutex is locked on a path on which this goroutine may still hold it (an unlock is missing on some path, e.g. before a continue): the goroutine deadlocks on itself and everything needing the mutex stalls silently")
+							}
+							cur[f] = true
+						} else {
+							delete(cur, f)
+						}
+					}
+				case *ssa.Return:
+					for f := range cur {
+						if !deferred[f] && !reported[ins] {
+							reported[ins] = true
+							c.fail("LOCKBAL", fmt.Sprintf("%s|returns holding %s", fnName(fn), w.fieldKey(f)), instrPos(ins),
+								"the function can return with a mutex still locked (no deferred unlock)")
+						}
+					}
+				}
+			}
+			for _, sct := range b.Succs {
+				old, ok := in[sct]
+				changed := !ok
+				if !ok {
+					old = map[*types.Var]bool{}
+				}
+				for k := range cur {
+					if !old[k] {
+						old[k] = true
+						changed = true
+					}
+				}
+				in[sct] = old
+				if changed {
+					work = append(work, sct)
+				}
+			}
+		}
+	}
+	c.ok("LOCKBAL", pkg+"|lock/unlock balance", token.NoPos, fmt.Sprintf("%d mutex operations in %d functions examined: no re-lock on a path that may still hold the mutex, no return with a mutex held", n, len(funcs)))
+	c.floor("LOCKBAL", 1)
 }
 
 // ---------------------------------------------------------------------------
